@@ -909,6 +909,10 @@ func (vm *VirtualMachine) callFunction(
 		defaults := fn.Defaults()
 		for i := argc; i < len(defaults); i++ {
 			vm.tmp[i] = defaults[i]
+			if vm.tmp[i] == nil {
+				// A parameter declared with "=nil" that was not passed
+				vm.tmp[i] = object.Nil
+			}
 		}
 		argc = paramsCount
 	}
